@@ -5,7 +5,7 @@ from trkgen import *
 import importlib
 
 ID = "C02"
-THEOREM_MODULES = ["SimVerif.Props.C02", "SimVerif.Props.C02b", "SimVerif.Tie.Inter", "SimVerif.Tie.Kalman", "SimVerif.Tie.SMetric"]
+THEOREM_MODULES = ["SimVerif.Props.C02", "SimVerif.Props.C02b", "SimVerif.Tie.Inter", "SimVerif.Tie.Kalman", "SimVerif.Tie.SMetric", "SimVerif.Tie.SortVoting", "SimVerif.Props.C02s"]
 THEOREM_MODULE = "SimVerif.Props.C02"
 NONTRIVIAL_FLAGS = {"gated-in", "below-gate", "confidence-raised", "beyond-chi2-gate", "greedy-suboptimal", "competition", "multi", "at-threshold", "too-far"}
 RULE = ("(a) `smetric`: SortMetric through Track::distances on a track built from 1..6 observations and a one-observation candidate — overlapping / near / far pairs, confidences below and above the configured minimum, default and non-default Kalman position / velocity weights of the track (the Mahalanobis gate must be computed with the track's own filter) "
@@ -72,3 +72,8 @@ def shape_key(case, results):
         if not r.o or not r.k or r.bad:
             return "trk-" + r.req.split()[1] + ("-invalid-choice" if "invalid-choice" in r.flags else "")
     return "trk"
+
+SOURCE_TIE = 'Source-level tie by proof (Tie/Inter, Tie/Kalman, Tie/SMetric, Tie/SortVoting, Props/C02s): SortMetric::metric (both gates) and SortVoting::winners as regenerated from the source: the cost matrix handed to kuhn_munkres is Assign.M thr W (own column = threshold, track columns = the quantised weights of the stream, first-appearance order), so every optimal solution of it decodes to a gated one-to-one association that is maximal among all partial associations; kuhn_munkres itself stays a contract checked per call.'
+LEVEL_TEXT = LEVEL_TEXT + " " + SOURCE_TIE
+TRUSTED_BASE = TRUSTED_BASE + ["translator/kernels.py + rustexpr.py (reader of the Rust subset, per-function tables) for the functions named in SOURCE_TIE; generated definitions are proof obligations (Tie modules) on every run"]
+TECHNIQUE = TECHNIQUE + "; model regenerated from the source by a translator for the functions of SOURCE_TIE, tied by proof"
